@@ -1,6 +1,120 @@
 /-
-  C08 — property theorems (placeholder: no theorem yet, the property is not claimed).
+  C08 — Rendering is total and allocation-free on display-scale inputs.
+
+  What is proved here (models: `EG.Model.Checked*`, the CHECKED form of the arithmetic kernels,
+  every intermediate operation in the integer type the Rust code uses now, `none` = the panic of a
+  build with overflow checks and debug assertions):
+
+  * range theorems `*_checked_eq_plain`: on display-scale inputs (`EG.DS`, file
+    EG/Lemmas/CheckedDS.lean) the checked kernel returns `some` of the plain (unbounded) kernel that
+    the geometric theorems of C01..C20 are about — so no arithmetic panic, and the plain models
+    describe the real computation there. Stated for the derived domain `DS.x*` (stroke areas,
+    their points, stroke offsets), which contains the display scale proper (`DS.rect_x` etc.);
+    the lemmas behind them hold on much larger domains (`Chk.W`: 2^28, `Chk.S`: 4096 / 8192).
+    This file: `Rectangle`, `Point (+|-) Size`.  C08/Shapes.lean: `Circle`, `Ellipse`,
+    `EllipseContains`.  C08/Lines.lean: Bresenham, thick-line threshold, intersections, miter.
+    C08/Data.lean: `ImageRaw`, `Framebuffer`, raw `load`/`store`, text metrics.
+  * `old_*` witness theorems: the integer widths of the tree before the `fix:` commits did not
+    suffice at display scale (why each widening was needed).
+  * C08/Reject.lean: rejection without panic (corollaries of C09, C10, C11 + `checked_mul`,
+    sub-image crop).  C08/Termination.lean: step bounds of the modelled iterators.
+
+  Not proved (what Lean cannot carry):
+  -- [V] no heap allocation in any constructor, query or draw: carried by correspondence + oracle only (counting global allocator, streams scale.shape/text/image/reject)
+  -- [V] no panic in code that has no checked model (thick polyline / triangle scanline machinery, rounded rectangles, arcs and sectors, f32 trigonometry, glyph rendering, styled scanline drawing): carried by correspondence + oracle only
+  -- [V] the `fixed_point` feature build (`I16F16::from_num` range): carried by correspondence + oracle only (thorough tier)
+  -- [V] termination of the real iterators within the step bounds of C08/Termination.lean (proved for the models): carried by correspondence + oracle only (iteration budgets of the scale.* streams)
+  -- [V] the checked kernels transcribe the operation sequence and integer widths of the Rust source: carried by correspondence only (streams scale.chk.*: `panic` exactly where the checked model says `none`, also far outside the display scale)
 -/
-import EG.Basic.Core
+import EG.Lemmas.CheckedDS
 namespace EG.C08
+open EG EG.Chk
+
+/-! ### `Point + Size`, `Point - Size` (with their `debug_assert!(width >= 0)`) -/
+
+/-- `Point + Size` on the derived display-scale domain: the casts `width as i32` are non-negative
+(no debug assertion fires) and the sums fit `i32`. -/
+theorem point_add_size_checked_eq_plain {p : Pt} {s : Sz} (hp : DS.xpt p) (hs : DS.xsz s) :
+    ptAddSize p s = some ⟨p.x + s.w, p.y + s.h⟩ := by
+  obtain ⟨⟨_, _⟩, ⟨_, _⟩⟩ := hp
+  obtain ⟨hw, hh⟩ := hs
+  unfold DS.xsize at hw hh
+  exact ptAddSize_ok (by omega) (by omega) (by omega) (by omega)
+example : DS.xpt ⟨-1152, 2176⟩ ∧ DS.xsz ⟨1280, 0⟩ := by decide
+
+theorem point_sub_size_checked_eq_plain {p : Pt} {s : Sz} (hp : DS.xpt p) (hs : DS.xsz s) :
+    ptSubSize p s = some ⟨p.x - s.w, p.y - s.h⟩ := by
+  obtain ⟨⟨_, _⟩, ⟨_, _⟩⟩ := hp
+  obtain ⟨hw, hh⟩ := hs
+  unfold DS.xsize at hw hh
+  exact ptSubSize_ok (by omega) (by omega) (by omega) (by omega)
+example : DS.xpt ⟨-1152, 2176⟩ ∧ DS.xsz ⟨1280, 0⟩ := by decide
+
+/-- The debug assertion is real: a size above `i32::MAX` panics whatever the point is. -/
+theorem point_add_size_asserts (p : Pt) : ptAddSize p ⟨2147483648, 0⟩ = none :=
+  ptAddSize_assert (by decide) (by decide)
+
+/-! ### `Rectangle` -/
+
+theorem rect_bottom_right_checked_eq_plain {r : Rect} (h : DS.xrect r) :
+    bottomRight r = some r.bottomRight := bottomRight_ok (DS.xrect_W h)
+example : DS.xrect ⟨⟨-1152, 2176⟩, ⟨1280, 0⟩⟩ := by decide
+
+/-- for every probe point (no bound on `p`: `contains` only compares it) -/
+theorem rect_contains_checked_eq_plain {r : Rect} (h : DS.xrect r) (p : Pt) :
+    contains r p = some (r.contains p) := contains_ok (DS.xrect_W h) p
+example : DS.xrect ⟨⟨-1024, -1024⟩, ⟨1024, 1024⟩⟩ := by decide
+
+theorem rect_intersection_checked_eq_plain {a b : Rect} (ha : DS.xrect a) (hb : DS.xrect b) :
+    intersection a b = some (a.intersection b) := intersection_ok (DS.xrect_W ha) (DS.xrect_W hb)
+example : DS.xrect ⟨⟨-1024, -1024⟩, ⟨1024, 1024⟩⟩ ∧ DS.xrect ⟨⟨0, 5⟩, ⟨0, 1024⟩⟩ := by decide
+
+theorem rect_envelope_checked_eq_plain {a b : Rect} (ha : DS.xrect a) (hb : DS.xrect b) :
+    envelope a b = some (a.envelope b) := envelope_ok (DS.xrect_W ha) (DS.xrect_W hb)
+example : DS.xrect ⟨⟨-1024, -1024⟩, ⟨1024, 1024⟩⟩ ∧ DS.xrect ⟨⟨1024, 1024⟩, ⟨0, 0⟩⟩ := by decide
+
+theorem rect_center_checked_eq_plain {r : Rect} (h : DS.xrect r) : center r = some r.center := by
+  have hs := h.2
+  unfold DS.xsz DS.xsize at hs
+  exact center_ok (DS.xpt_W h.1) (by omega)
+example : DS.xrect ⟨⟨-1024, 1024⟩, ⟨1024, 1⟩⟩ := by decide
+
+theorem rect_with_center_checked_eq_plain {c : Pt} {s : Sz} (hc : DS.xpt c) (hs : DS.xsz s) :
+    withCenter c s = some (Rect.withCenter c s) := by
+  obtain ⟨⟨_, _⟩, ⟨_, _⟩⟩ := hc
+  unfold DS.xsz DS.xsize at hs
+  exact withCenter_ok (by omega) (by omega)
+example : DS.xpt ⟨-1024, 1024⟩ ∧ DS.xsz ⟨1024, 0⟩ := by decide
+
+/-- `offset` by a stroke offset (`-128 ..= 128`, also larger than the rectangle). -/
+theorem rect_offset_checked_eq_plain {r : Rect} (h : DS.xrect r) {o : Int} (ho : DS.offs o) :
+    offset r o = some (r.offset o) := offset_ok (DS.xrect_W h) (DS.offs_W ho)
+example : DS.xrect ⟨⟨3, 4⟩, ⟨5, 0⟩⟩ ∧ DS.offs (-128) := by decide
+
+theorem rect_resized_checked_eq_plain {r : Rect} (h : DS.xrect r) {s : Sz} (hs : DS.xsz s) (a : Anchor) :
+    resized r s a = some (r.resized s a) := resized_ok (DS.xrect_W h) (DS.xsz_W hs) a
+example : DS.xrect ⟨⟨3, 4⟩, ⟨5, 0⟩⟩ ∧ DS.xsz ⟨1024, 0⟩ := by decide
+
+theorem rect_anchor_point_checked_eq_plain {r : Rect} (h : DS.xrect r) (a : Anchor) :
+    anchorPoint r a = some (r.anchorPoint a) := anchorPoint_ok (DS.xrect_W h) a
+example : DS.xrect ⟨⟨3, 4⟩, ⟨0, 1024⟩⟩ := by decide
+
+theorem rect_translate_checked_eq_plain {r : Rect} (h : DS.xrect r) {d : Pt} (hd : DS.xpt d) :
+    translate r d = some (r.translate d) := translate_ok (DS.xpt_W h.1) (DS.xpt_W hd)
+example : DS.xrect ⟨⟨3, 4⟩, ⟨0, 1024⟩⟩ ∧ DS.xpt ⟨-1024, 1024⟩ := by decide
+
+/-- `rows()` / `columns()` use saturating arithmetic only: no panic for any `i32` / `u32`. -/
+theorem rect_rows_columns_total (r : Rect) : rows r = some r.rows ∧ columns r = some r.columns :=
+  ⟨rfl, rfl⟩
+
+/-- The display scale is far inside the safe range: the same statements hold for coordinates and
+sizes up to 2^28 (`Chk.W`), e.g. the intersection. -/
+theorem rect_intersection_wide {a b : Rect} (ha : W.rect a) (hb : W.rect b) :
+    intersection a b = some (a.intersection b) := intersection_ok ha hb
+example : W.rect ⟨⟨-268435456, 268435456⟩, ⟨268435456, 1⟩⟩ := by decide
+
+/-- ... and the `i32` range does end: a rectangle whose corner is not representable panics in
+`bottom_right()` (this is what `sub_image` has to avoid, see C08/Reject.lean). -/
+theorem rect_bottom_right_overflows : bottomRight ⟨⟨2147483647, 0⟩, ⟨2, 1⟩⟩ = none := by decide
+
 end EG.C08
